@@ -294,6 +294,7 @@ func runC16(c *Ctx) {
 		})
 	}
 
+	checkDeferOverwrite(c, "R16.4", ri.module())
 	// ---- Run
 	checkRun(c)
 	// ---- main
